@@ -582,8 +582,14 @@ class Retrieve:
 
         # Remove the reader from _active_readers
         self._active_readers.remove(reader)
-        for shnum in list(self.remaining_sharemap.keys()):
+        if f.check(BadShareError):
+            # only this share is known to be bad: other shares held by the
+            # same server may still be good
             self.remaining_sharemap.discard(shnum, reader.server)
+        else:
+            # the server itself is in trouble: stop using it
+            for other_shnum in list(self.remaining_sharemap.keys()):
+                self.remaining_sharemap.discard(other_shnum, reader.server)
 
         if f.check(BadShareError):
             self.notify_server_corruption(server, shnum, str(f.value))
